@@ -7,7 +7,7 @@
    as found.  `body`/`pick` are arbitrary user code / output pickers. *)
 From Verif Require Import Base.Prelude Base.StrOrd Base.Graph Model.Pipe Model.CacheSem Model.CacheSemSpec
   Proofs.CacheSemBase Proofs.CacheSemFacts.
-From Verif Require Model.MapRun Model.MapRunCache Proofs.MapRunCacheFacts.
+From Verif Require Model.MapRun Model.MapRunCache Proofs.MapRunCacheFacts Model.Lazy Model.LazySeq Proofs.LazySeqFacts.
 
 (* ---------- the property ---------- *)
 (* For every replacement policy (anything `lawful`), every pipeline, every choice of cached functions (the `cached`
@@ -192,6 +192,25 @@ Print Assumptions C09_map_dict_lawful.
 (* the empty dict satisfies the hypothesis *)
 Example C09_map_empty_inv body p : MapRunCacheFacts.kinv body MapRunCache.map_simple (fun _ => True) p [].
 Proof. split; [exact I|]. intros k v H. discriminate. Qed.
+
+(* ---------- lazy pipelines (Model/LazySeq.v, C18) ---------- *)
+(* the first request to a fresh lazy pipeline object WITH its caches (the task-graph SimpleCache / the pipeline's LRU
+   cache) is exactly the lazy run without caches (Lazy.lazy_run: result, heap of _LazyFunction nodes, task graph) -
+   for every well-formed pipeline: the side condition "root_args never fails" of C18_first_request_is_lazy_run is
+   discharged by C09_roots_ok_of_wf.  (Later requests of a lazy sequence: C18; not covered here.) *)
+Theorem C09_lazy_first_request_transparent : forall p dagon o kw full,
+  wf_pipeline p ->
+  exists c, LazySeq.crequest p dagon LazySeq.pinit o kw full =
+            (fst (Lazy.lazy_run p o kw full dagon),
+             {| LazySeq.pheap := Lazy.lheap (snd (Lazy.lazy_run p o kw full dagon));
+                LazySeq.pdag := Lazy.ldag (snd (Lazy.lazy_run p o kw full dagon));
+                LazySeq.pcache := c; LazySeq.plog := [] |}).
+Proof.
+  intros p dagon o kw full WF. apply LazySeqFacts.first_request_is_lazy_run; [exact WF|].
+  pose proof (RootArgsFacts.roots_okb_of_wf p WF) as H. unfold roots_okb in H. rewrite forallb_forall in H.
+  apply forallb_forall. intros o' Ho'. specialize (H o' Ho'). destruct (root_args p o'); [reflexivity | discriminate].
+Qed.
+Print Assumptions C09_lazy_first_request_transparent.
 
 (* ---------- the code as found (legacy = true) does NOT have the property: three defects ---------- *)
 Definition fb : pfunc := mkf (s "fb") [s "b"] [(s "a", s "a")] [] [] true.
